@@ -20,10 +20,12 @@ def main():
     py, xs, lits = seeds.all_seeds()
     o = ("c02",)
     pycommon.b_full(chk, o, 2 if chk.quick else 3, python_only=True)
-    ref = seeds.grammar_programs("reference", 4 if chk.quick else 10, chk.seed)
+    ref = seeds.grammar_programs("reference", 8 if chk.quick else 20, chk.seed)
     chk.extra["reference_grammar_programs"] = len(ref)
     pycommon.k0_texts(chk, o, ref, "reference-grammar derivations k=0", wall=150 if chk.quick else 900, vac=("ok",))
     pycommon.b_holes(chk, o, seeds.sample(chk.rng, ref, 80 if chk.quick else 1500), 2 if chk.quick else 0, wall=120 if chk.quick else 2400, name="B-holes k=1 on reference derivations")
+    dels = pycommon.token_deletions(ref + [s for s in py if len(s) < 200])
+    pycommon.k0_texts(chk, o, dels, "single-token deletions k=0", wall=150 if chk.quick else 1200, vac=("SyntaxError",))
     ep = seeds.expr_product()
     pycommon.k0_texts(chk, o, ep, "expression kinds x positions k=0", wall=150 if chk.quick else 900, vac=("ok", "SyntaxError"))
     pycommon.indent_skeleton(chk, o, 5 if chk.quick else 6, pycommon.CORE_OPTS, wall=150 if chk.quick else 1500)
